@@ -61,6 +61,13 @@ def run(ctx):
     r1 = ctx.model_check("FileLogger", "FileLogger_mc.cfg", timeout=1500)
     ctx.model_check("FileLogger", "FileLogger_batch.cfg", timeout=1500)
     ctx.model_check("FileLogger", "FileLogger_restart.cfg", timeout=1500)
+    # the design WITHOUT O_EXCL for gzip (re-open the existing file and append after a restart) must be refuted:
+    # kill with an open member, restart, append behind the torn member, fsync, FIN
+    rg = ctx.model_check("FileLogger", "FileLogger_gzappend.cfg", expect_ok=False, timeout=1500)
+    if rg.violated not in ("FinOnlyAfterDurable", "NothingOwedIsMissing"):
+        raise Inconclusive("FileLogger_gzappend.cfg (gzip files re-opened in append mode) should violate FinOnlyAfterDurable, "
+                           "TLC says: %s" % (rg.violated,))
+    ctx.notes["append_on_restart_design_refuted_by"] = rg.violated
     if not quick:
         ctx.model_check("FileLogger", "FileLogger_thorough.cfg", timeout=3000)
         ctx.model_check("FileLogger", "FileLogger_restart_thorough.cfg", timeout=3000)
@@ -100,7 +107,8 @@ def run(ctx):
                        "and a data file was written; distinct by (gzip, work-dir, skip-empty, rotate-size on, rotate-interval "
                        "on, datetime format, sync interval, max-in-flight, stop kind, kill-point pc, exit code, rotated, "
                        "link EEXIST, open EEXIST, appended to an existing file, number of SIGHUPs)")
-    for k in ("published", "not_owed_checked", "fins", "fsyncs", "files_inspected", "gzip_files_with_torn_tail", "stops",
+    for k in ("published", "not_owed_checked", "fins", "fsyncs", "files_inspected", "gzip_files_with_torn_tail",
+              "gzip_members_left_torn_by_a_dead_process", "stops",
               "exit_codes", "kill_point_runs", "kill_point_fired", "kill_point_pcs_fired", "runs_with_rotation",
               "tool_fatal_exits", "runs_with_restart", "runs_with_link_eexist", "runs_with_open_eexist", "runs_appending_to_existing_file", "stuck_after_stop",
               "trace_events"):
